@@ -3,8 +3,9 @@ from props import C14
 from props.common_prog import judge_prog
 from props import C19
 
-THEOREM_MODULES = ["Hcl.Theorems.C09", "Hcl.Tie.Fixed", "Hcl.Tie.PinsBuild", "Hcl.Theorems.C09Exact", "Hcl.Theorems.C08Spec", "Hcl.Theorems.FromText", "Hcl.Theorems.C09Named", "Hcl.Theorems.C09NamedSound"]
-THEOREMS = {"Hcl.Theorems.C09NamedSound": ["C09_named_stage34_sound", "C09_named_stage5_sound", "C09_named_stage5_loop_real", "C09_every_diagnostic_names_a_fault", "C09_regFault_iff", "C09_inProgram_iff", "C09_exprDiag_iff"],
+THEOREM_MODULES = ["Hcl.Theorems.C09", "Hcl.Tie.Fixed", "Hcl.Tie.PinsBuild", "Hcl.Theorems.C09Exact", "Hcl.Theorems.C08Spec", "Hcl.Theorems.FromText", "Hcl.Theorems.C09Named", "Hcl.Theorems.C09NamedSound", "Hcl.Tie.PinsRefs"]
+THEOREMS = {"Hcl.Tie.PinsRefs": ["Tie.PinsRefs.pinApplyToAll", "Tie.PinsRefs.pinApplyToAllMut", "Tie.PinsRefs.pinReferencedWires", "Tie.PinsRefs.pinFindReferences"],
+            "Hcl.Theorems.C09NamedSound": ["C09_named_stage34_sound", "C09_named_stage5_sound", "C09_named_stage5_loop_real", "C09_every_diagnostic_names_a_fault", "C09_regFault_iff", "C09_inProgram_iff", "C09_exprDiag_iff"],
             "Hcl.Theorems.C09Named": ["C09_named_redeclared", "C09_named_redeclared_builtin", "C09_named_double_assigned", "C09_named_assigned_fixed_out", "C09_named_assigned_constant", "C09_named_const_reads_wire", "C09_named_const_reads_undeclared", "C09_named_stage1_sound", "C09_named_unset_wire", "C09_named_unset_register_input", "C09_named_assigned_register_out", "C09_named_register_default_reads_wire", "C09_named_register_signal_declared", "C09_named_mandatory_input_unset", "C09_named_used_component_input_unset", "C09_named_partial_component", "C09_named_undeclared_assigned", "C09_named_check_diag", "C09_named_undeclared_read", "C09_named_wire_read_undeclared"],
             "Hcl.Theorems.FromText": ["C09_from_text", "C09_from_text_accepted", "Parser.parseProgram_wf"],
             "Hcl.Theorems.C08Spec": ["C08_spec_accepts_sound", "C08_spec_accepts_complete", "C08_spec_faults_iff_accepted", "accepted_design_tables", "SF.cyclicNodes_nil_iff", "SF.faults_nil_iff"],
